@@ -80,12 +80,16 @@ def write_evidence(out: Outcome, status):
 def finish(out: Outcome):
     known = load_known()
     unlisted = []
+    listed = []
     for v in out.violations:
         match = [k for k in known.get('known', []) if k['property'] == out.pid and k['key'] == v.get('key')]
         if match:
             print('KNOWN-FINDING: property=%s %s' % (out.pid, match[0]['what']))
+            listed.append({'key': v.get('key'), 'what': match[0]['what'], 'observed': v.get('what'), 'scenario': v.get('scenario')})
         else:
             unlisted.append(v)
+    out.evidence.setdefault('coverage', {})['known_findings_reproduced'] = listed
+    out.violations = unlisted
     if unlisted:
         for v in unlisted:
             path = save_replay(out.pid, v['scenario'])
